@@ -20,9 +20,9 @@ FALLBACK_DEFS = ['-DPACKAGE_NAME="radsecproxy"', '-DPACKAGE_TARNAME="radsecproxy
 
 # repo files compiled as they are
 PLAIN = ["dns", "dtls", "fticks", "fticks_hashmac", "gconfig", "hash", "list",
-         "radmsg", "tcp", "tls", "tlv11", "udp", "util"]
+         "radmsg", "tcp", "tls", "tlv11", "util"]
 # repo files compiled through a harness TU that #includes them textually
-WRAPPED = {"radsecproxy": "h_rsp", "tlscommon": "h_tls", "debug": "h_debug", "hostport": "h_hostport", "rewrite": "h_rewrite"}
+WRAPPED = {"radsecproxy": "h_rsp", "tlscommon": "h_tls", "debug": "h_debug", "hostport": "h_hostport", "rewrite": "h_rewrite", "udp": "h_udp"}
 EXTRA = ["h_main", "h_misc", "h_world"]
 
 
